@@ -308,7 +308,8 @@ func (pm *ProtocolManager) rcvBlockLoop() {
 			// output cache size
 			cacheSize := pm.blockCache.Size()
 			if cacheSize > 0 {
-				p := pm.peers.BestToSync(pm.blockCache.FirstHeight())
+				// the wanted block is FirstHeight()-1: every peer whose head is at or above the cached block has it
+				p := pm.peers.BestToSync(pm.blockCache.FirstHeight() - 1)
 				if p != nil {
 					log.Debugf("BlockCache's size: %d. request the parent block of %d", cacheSize, pm.blockCache.FirstHeight())
 					go p.RequestBlocks(pm.blockCache.FirstHeight()-1, pm.blockCache.FirstHeight()-1)
